@@ -563,3 +563,36 @@ def check_offline_counter_restart(ix, rep, rule='R-GAPLOOP'):
             rep.fail(rule, m.rel, f.qual, 'offline:restart', 'evaluate() adds the bad gaps of this data set to the count left by the previous evaluate(): time = [0,1,3] with period 1 s reads 1 after the '
                      'first evaluate() and 2 after the second, for a time column with one bad gap', f.node.lineno)
     return n
+
+
+# ------------------------------------------------------------------------------------------------- R-EXH (what pastify() removes before a monitor can refuse it)
+def check_pastify_keeps_rejections(ix, rep, rule='R-EXH'):
+    """the dense-time monitors refuse next / s_next when the operators are built.  pastify() rewrites both away (their handler returns the rewritten operand),
+    so after pastify() the refusal is never reached and the specification yields values: the wrapper has to refuse them for a dense-time interpreter
+    before it hands the ast to the pastifier"""
+    c = ix.module(SPEC_MOD).classes.get('AbstractOnlineSpecification')
+    f = c.methods.get('pastify') if c is not None else None
+    if f is None:
+        raise AnalysisError('AbstractOnlineSpecification.pastify vanished')
+    rep.analysed(f)
+    # does the pastifier consume Next nodes?
+    pcls = ix.find_class('rtamt.pastifier.stl.pastifier', 'StlPastifier')
+    consumed = []
+    for nm in ('visitNext', 'visitStrongNext'):
+        g = ix.resolve_method(pcls, nm) if pcls is not None else None
+        if g is not None and not any(isinstance(x, ast.Call) and isinstance(x.func, ast.Name) and x.func.id in ('Next', 'StrongNext') for x in ast.walk(g.node)):
+            consumed.append(nm[5:])
+    if not consumed:
+        rep.ok(rule, f.module.rel, f.qual, 'pastify:dense-next', 'the pastifier keeps next / s_next nodes', f.node.lineno)
+        return 1
+    # the wrapper (with the self-methods it calls) tests for a dense-time interpreter and raises RTAMTException in that arm
+    bodies = [f.node] + [c.methods[x.func.attr].node for x in ast.walk(f.node) if isinstance(x, ast.Call) and _self_attr(x.func) and x.func.attr in c.methods]
+    src = ' '.join(ast.unparse(b) for b in bodies)
+    guarded = any(isinstance(i, ast.If) and 'Dense' in ast.unparse(i.test) for i in ast.walk(f.node)) and 'RTAMTException' in src and 'Next' in src
+    if guarded:
+        rep.ok(rule, f.module.rel, f.qual, 'pastify:dense-next', 'next / s_next are refused for a dense-time interpreter before the pastifier removes them', f.node.lineno)
+    else:
+        rep.fail(rule, f.module.rel, f.qual, 'pastify:dense-next', 'the pastifier rewrites %s away, and pastify() hands it the ast of a dense-time specification without refusing them: '
+                 'StlDenseTimeSpecification, `out = next(a >= 1)`: update() without pastify() raises "Next operator not implemented in STL dense-time", after pastify() it returns [[0,0.0],[1,1.0]]'
+                 % ' and '.join(consumed), f.node.lineno)
+    return 1
